@@ -480,18 +480,71 @@ Proof.
   - destruct (send_command s); free_tac HL HC Hnh.
 Qed.
 
-Ltac fresh_refuse :=
-  match goal with
-    Hh : holder ?s = None, Hq : lockq ?s = [], Hcr : st_fsm ?s = Created, HC : CI ?s, HL : LkS ?s |- CI (acquire _ ?t _ _) =>
-    unfold acquire; fsimpl; rewrite Hh, Hq; unfold enter, enter_run, enter_reset; fsimpl; rewrite Hcr;
-    unfold refuse; fsimpl; rewrite ?Hq; fsimpl;
-    try match goal with |- context [cont_closed ?x] => destruct (cont_closed x) end;
-    (apply (CI_build s _ t); auto; fsimpl; rewrite ?Hq; fsimpl; ci_side;
-     first [ solve [intros _; repeat split; auto]
-           | solve [apply (ci_sev _ HC)]
-           | solve [eapply of_trans; [apply of_put | apply of_remove]]
-           | solve [intros c0 p0; rewrite find_remove_eq; discriminate] ])
-  end.
+Lemma acquire_free s t c b : holder s = None -> lockq s = [] ->
+  acquire s t c b = enter (set_pc (set_holder s (Some t)) t c (if b then Granted2 else Granted1)) t c b.
+Proof. unfold acquire. intros -> ->. reflexivity. Qed.
+Lemma acquire_busy s t c b h : holder s = Some h ->
+  acquire s t c b = set_pc (set_lockq s (lockq s ++ [t])) t c (if b then WaitLock2 else WaitLock1).
+Proof. unfold acquire. intros ->. reflexivity. Qed.
+Lemma enter_start_created s t c : st_fsm s = Created ->
+  enter_start s t c = set_pc (change_script (log_hook s HStart None None)) t c S_G1.
+Proof. unfold enter_start. intros ->. reflexivity. Qed.
+Lemma enter_run_created s t c : st_fsm s = Created -> enter_run s t c = refuse s t c.
+Proof. unfold enter_run. intros ->. reflexivity. Qed.
+Lemma enter_reset_created s t o : st_fsm s = Created -> enter_reset s t o = refuse s t (CReset o).
+Proof. unfold enter_reset. intros ->. reflexivity. Qed.
+Lemma release_empty s : lockq s = [] -> release s = set_holder s None.
+Proof. unfold release. intros ->. reflexivity. Qed.
+
+Lemma CI_fresh_start s s0 t c :
+  LkS s -> CI s -> nl_started s = false -> (c = CClose -> nl_closed s0 = true) ->
+  st_fsm s0 = st_fsm s -> holder s0 = holder s -> lockq s0 = lockq s -> tasks s0 = tasks s ->
+  runt s0 = runt s -> started_ev s0 = started_ev s -> nl_started s0 = true ->
+  incl (trace s) (trace s0) ->
+  CI (acquire s0 t c false) \/ (c <> CStart /\ c <> CClose).
+Proof.
+  intros HL HC Hst Hcl E1 E2 E3 E4 E5 E6 E7 Hi.
+  destruct (ci_fresh _ HC Hst) as (Hcr & Hh & Hq & Hnc).
+  destruct (match c with CStart | CClose => true | _ => false end) eqn:Ec;
+    [left | right; destruct c; split; discriminate].
+  rewrite acquire_free by congruence.
+  assert (Een : enter (set_pc (set_holder s0 (Some t)) t c Granted1) t c false =
+                enter_start (set_pc (set_holder s0 (Some t)) t c Granted1) t c)
+    by (destruct c; try discriminate; reflexivity).
+  rewrite Een, enter_start_created by (simpl; congruence).
+  apply (CI_build s _ t); auto; simpl; rewrite ?E1, ?E2, ?E3, ?E4, ?E5, ?E6, ?E7; ci_side.
+  - intros _ _. exists t, c. split; auto. apply find_put_eq.
+  - apply (ci_sev _ HC).
+  - repeat apply incl_cons_r. exact Hi.
+  - eapply of_trans; apply of_put.
+  - put_entry. qc_tac.
+Qed.
+
+Lemma CI_fresh_refuse s s0 t c :
+  LkS s -> CI s -> nl_started s = false -> runlike c = true \/ (exists o, c = CReset o) ->
+  st_fsm s0 = st_fsm s -> holder s0 = holder s -> lockq s0 = lockq s -> tasks s0 = tasks s ->
+  runt s0 = runt s -> started_ev s0 = started_ev s -> nl_started s0 = false -> nl_closed s0 = nl_closed s ->
+  incl (trace s) (trace s0) ->
+  CI (acquire s0 t c false).
+Proof.
+  intros HL HC Hst Hk E1 E2 E3 E4 E5 E6 E7 E8 Hi.
+  destruct (ci_fresh _ HC Hst) as (Hcr & Hh & Hq & Hnc).
+  rewrite acquire_free by congruence.
+  set (s2 := set_pc (set_holder s0 (Some t)) t c Granted1).
+  assert (Een : enter s2 t c false = refuse s2 t c).
+  { destruct Hk as [Hk | (o & ->)].
+    - transitivity (enter_run s2 t c); [destruct c; try discriminate; reflexivity|].
+      apply enter_run_created. simpl. congruence.
+    - apply enter_reset_created. simpl. congruence. }
+  rewrite Een. unfold refuse. rewrite (release_empty s2) by (simpl; congruence).
+  destruct (is_cont c); [destruct (cont_closed (set_holder s2 None))|];
+  (apply (CI_build s _ t); auto; simpl; rewrite ?E1, ?E2, ?E3, ?E4, ?E5, ?E6, ?E7, ?E8; ci_side;
+   first [ solve [intros _; repeat split; auto]
+         | solve [apply (ci_sev _ HC)]
+         | solve [repeat apply incl_cons_r; exact Hi]
+         | solve [eapply of_trans; [apply of_put | apply of_remove]]
+         | solve [intros c0 p0; rewrite find_remove_eq; discriminate] ]).
+Qed.
 
 Lemma CI_do_call_fresh s t c :
   LkS s -> FI s -> CI s -> nl_started s = false -> find_task (tasks s) t = None -> CI (do_call s t c).
@@ -500,26 +553,18 @@ Proof.
   pose proof (free_not_holder _ _ HL Hfree) as Hnh.
   destruct (ci_fresh _ HC Hst) as (Hcr & Hh & Hq & Hnc).
   destruct c; cbn [nl_started nl_closed cont_closed running_process send_command set_trace];
-    rewrite ?Hst, ?Hnc; cbn [nl_started set_nl_closed set_trace].
-  - (* CStart *)
-    unfold acquire. fsimpl. rewrite Hh, Hq. unfold enter, enter_start. fsimpl. rewrite Hcr.
-    apply (CI_build s _ t); auto; fsimpl; ci_side.
-    + intros _ _. exists t, CStart. split; auto. apply find_put_eq.
-    + apply (ci_sev _ HC).
-    + eapply of_trans; apply of_put.
-    + put_entry. qc_tac.
-  - (* CRun *) fresh_refuse.
-  - (* CReset *) fresh_refuse.
-  - (* CClose *)
-    rewrite ?Hst. unfold acquire. fsimpl. rewrite Hh, Hq. unfold enter, enter_start. fsimpl. rewrite Hcr.
-    apply (CI_build s _ t); auto; fsimpl; ci_side.
-    + intros _ _. exists t, CClose. split; auto. apply find_put_eq.
-    + apply (ci_sev _ HC).
-    + eapply of_trans; apply of_put.
-    + put_entry. qc_tac.
-  - destruct (cont_closed s) eqn:Ecc; [free_tac HL HC Hnh | fresh_refuse].
-  - destruct (cont_closed s) eqn:Ecc; [free_tac HL HC Hnh | fresh_refuse].
-  - fresh_refuse.
+    rewrite ?Hst, ?Hnc; cbn [nl_started set_nl_closed set_trace]; rewrite ?Hst.
+  - destruct (CI_fresh_start s (publish (set_nl_started (set_trace s (EvCall t CStart :: trace s)) true) (PCont false)) t CStart)
+      as [H | (H & _)]; auto; try congruence. simpl. incl_tac.
+  - apply (CI_fresh_refuse s); auto. simpl. incl_tac.
+  - apply (CI_fresh_refuse s); eauto. simpl. incl_tac.
+  - destruct (CI_fresh_start s (publish (set_nl_started (set_nl_closed (set_trace s (EvCall t CClose :: trace s)) true) true) (PCont false)) t CClose)
+      as [H | (_ & H)]; auto; try congruence. simpl. incl_tac.
+  - destruct (cont_closed s) eqn:Ecc; [free_tac HL HC Hnh | ].
+    apply (CI_fresh_refuse s); auto. simpl. incl_tac.
+  - destruct (cont_closed s) eqn:Ecc; [free_tac HL HC Hnh | ].
+    apply (CI_fresh_refuse s); auto. simpl. incl_tac.
+  - apply (CI_fresh_refuse s); auto. simpl. incl_tac.
   - destruct (running_process s); free_tac HL HC Hnh.
   - destruct (send_command s); free_tac HL HC Hnh.
 Qed.
